@@ -95,11 +95,11 @@ IntegOK(e) ==
         /\ \A i \in 1..n : IsFinite(F[i + 1]) /\ IsFlOf(F[i + 1], exactF[i + 1])   \* c_i/(i+1), correctly rounded
         /\ \A i \in 2..(n + 1) : G[i] = F[i]                        \* shifted vertically only
         /\ IsFinite(G[1])
-        /\ BRLe(BRAbs(BRSub(B!Eval(Gx, kx), ky)), tolKnot)          \* passes through the knot
+        /\ LeTracked(BRAbs(BRSub(B!Eval(Gx, kx), ky)), tolKnot)          \* passes through the knot
         \* F(b) - F(a) is the exact integral, up to the rounding of the coefficients
         /\ LET a == Val(e.pa)  b == Val(e.pb)
                tolInt == BRMul(BRMul(BR(2), U), BRAdd(B!AbsEval(exactF, a), B!AbsEval(exactF, b)))
-           IN  BRLe(BRAbs(BRSub(BRSub(B!Eval(Gx, b), B!Eval(Gx, a)), B!DefInt(c, a, b))), tolInt)
+           IN  LeTracked(BRAbs(BRSub(BRSub(B!Eval(Gx, b), B!Eval(Gx, a)), B!DefInt(c, a, b))), tolInt)
         \* differentiating the result returns p to within one ulp, coefficient-wise
         /\ Len(e.dback) = n /\ \A i \in 1..n : IsFinite(e.dback[i]) /\ WithinUlps(e.dback[i], c[i], 1)
 
